@@ -27,6 +27,7 @@ THEOREMS = [
     'Pyiga.Props.C16.block_transpose', 'Pyiga.Props.C16.block_transpose_wf',
     'Pyiga.Props.C16.kron_linops_spec', 'Pyiga.Props.C16.subspace_spec',
     'Pyiga.Props.C16.csr_row_slice', 'Pyiga.Props.C16.csr_row_slice_mat', 'Pyiga.Props.C16.csr_row_subset',
+    'Pyiga.Props.C16.transpose_involutive', 'Pyiga.Props.C16.subspace_T_H_same',
     'Pyiga.Props.C16.fastdiag_abstract', 'Pyiga.Props.C16.fastdiag_1d', 'Pyiga.Props.C16.fastdiag_2d', 'Pyiga.Props.C16.fastdiag_3d',
 ]
 MODULES = ['Pyiga.Model.Index', 'Pyiga.Model.LinAlg', 'Pyiga.Model.Operators', 'Pyiga.Proofs.Index',
@@ -100,6 +101,25 @@ def rand_factors(rng, n, maxdim=3, square=False, kinds=KINDS):
         mats.append(rint(rng, (m, c)))
         ks.append(str(rng.choice(kinds)))
     return ks, mats
+
+
+WORDS = ['N', 'N', 'N', 'T', 'H', 'TT', 'TH', 'HT', 'HH', 'TTT', 'TTH', 'THT', 'THH', 'HTT', 'HTH', 'HHT', 'HHH']
+
+
+def rand_word(rng):
+    """a word over {T, H} of length <= 3 applied left to right ('TH' = X.T.H); 'N' = no transposition"""
+    return str(rng.choice(WORDS))
+
+
+def apply_word(op, w):
+    for ch in ('' if w == 'N' else w):
+        op = op.T if ch == 'T' else op.H
+    return op
+
+
+def transposed(w):
+    """real data: the operator is transposed iff the word has odd length"""
+    return w != 'N' and len(w) % 2 == 1
 
 
 def kron_all(mats):
@@ -238,8 +258,8 @@ def run(ctx):
         K = kron_all(mats)
         flag = 'N'
         if which == 'kronop':
-            flag = str(rng.choice(['N', 'N', 'T', 'H']))
-        D = K.T if flag != 'N' else K
+            flag = rand_word(rng)
+        D = K.T if transposed(flag) else K
         x = rand_x(rng, D.shape[1])
         bad = rng.integers(0, 30) == 0
         if bad:
@@ -259,7 +279,7 @@ def run(ctx):
         else:
             def f(ops=ops, x=x, flag=flag):
                 Kop = operators.KroneckerOperator(*ops)
-                return (Kop.T if flag == 'T' else Kop.H if flag == 'H' else Kop).dot(x)
+                return apply_word(Kop, flag).dot(x)
             r = 'kronop %s %s %s' % (flag, fmt_ops(ks, mats), fmt_tensor(x))
         add(r, f, {'op': which + ('-bad' if bad else ''), 'n': n, 'kinds': ks, 'flag': flag, 'nontrivial': n >= 2},
             dense=None if bad else D, x=None if bad else x)
@@ -273,7 +293,7 @@ def run(ctx):
     nbl = 900 if quick else 8000
     for _ in range(nbl):
         which = str(rng.choice(['bdiag', 'block', 'block', 'base']))
-        flag = str(rng.choice(['N', 'N', 'T', 'H']))
+        flag = rand_word(rng)
         if which == 'bdiag':
             n = int(rng.integers(1, 4))
             ks, mats = rand_factors(rng, n, 3)
@@ -327,14 +347,14 @@ def run(ctx):
             r0 = 'base %s %d %d %s %s %s' % (flag, M, N, fmt_ops(ks, mats), plist(ro, lambda t: '%d %d' % t),
                                              plist(ri, lambda t: '%d %d' % t))
         if D is not None:
-            Df = D.T if flag != 'N' else D
+            Df = D.T if transposed(flag) else D
             x = rand_x(rng, Df.shape[1])
         else:
             Df = None
-            x = rand_x(rng, sum(ws) if flag == 'N' else sum(hs))
+            x = rand_x(rng, sum(hs) if transposed(flag) else sum(ws))
         def f(mkop=mkop, flag=flag, x=x):
             B = mkop()
-            return (B.T if flag == 'T' else B.H if flag == 'H' else B).dot(x)
+            return apply_word(B, flag).dot(x)
         add('%s %s' % (r0, fmt_tensor(x)), f, {'op': which, 'flag': flag}, dense=Df, x=x if Df is not None else None)
 
     # ---------------------------------------------------------------- diagonal / identity / null
@@ -344,16 +364,20 @@ def run(ctx):
         d = rint(rng, (n,))
         add('diag %s %s' % (plist(d.tolist(), frac), fmt_tensor(x)), lambda d=d, x=x: operators.DiagonalOperator(d).dot(x),
             {'op': 'diag', 'nontrivial': n > 1, 'key': 'diagonal-size-1' if n == 1 else None}, dense=np.diag(d), x=x)
-        add('diag %s %s' % (plist(d.tolist(), frac), fmt_tensor(x)), lambda d=d, x=x: operators.DiagonalOperator(d[None, :]).T.dot(x),
-            {'op': 'diag.T', 'nontrivial': n > 1, 'key': 'diagonal-size-1' if n == 1 else None}, dense=np.diag(d), x=x)
-        add('ident %d %s' % (n, fmt_tensor(x)), lambda n=n, x=x: operators.IdentityOperator(n).T.dot(x),
-            {'op': 'ident', 'nontrivial': False}, dense=np.eye(n), x=x)
+        w = rand_word(rng)
+        add('diag %s %s' % (plist(d.tolist(), frac), fmt_tensor(x)),
+            lambda d=d, x=x, w=w: apply_word(operators.DiagonalOperator(d[None, :]), w).dot(x),
+            {'op': 'diag.word', 'word': w, 'nontrivial': n > 1, 'key': 'diagonal-size-1' if n == 1 else None}, dense=np.diag(d), x=x)
+        w = rand_word(rng)
+        add('ident %d %s' % (n, fmt_tensor(x)), lambda n=n, x=x, w=w: apply_word(operators.IdentityOperator(n), w).dot(x),
+            {'op': 'ident', 'word': w, 'nontrivial': False}, dense=np.eye(n), x=x)
         m = int(rng.integers(1, 5))
-        t = bool(rng.integers(0, 2))
+        w = rand_word(rng)
+        t = transposed(w)
         x2 = rand_x(rng, m if t else n)
         add('null %d %d %s' % (((n, m) if t else (m, n)) + (fmt_tensor(x2),)),
-            lambda m=m, n=n, t=t, x2=x2: (operators.NullOperator((m, n)).T if t else operators.NullOperator((m, n))).dot(x2),
-            {'op': 'null', 'nontrivial': False}, dense=np.zeros((n, m) if t else (m, n)), x=x2)
+            lambda m=m, n=n, w=w, x2=x2: apply_word(operators.NullOperator((m, n)), w).dot(x2),
+            {'op': 'null', 'word': w, 'nontrivial': False}, dense=np.zeros((n, m) if t else (m, n)), x=x2)
 
     # ---------------------------------------------------------------- SubspaceOperator
     for _ in range(300 if quick else 3000):
@@ -363,12 +387,12 @@ def run(ctx):
             nj = int(rng.integers(1, 4))
             Ps.append(rint(rng, (n, nj), -2, 3)); Bs.append(rint(rng, (nj, nj)))
             pk.append(str(rng.choice(['d', 'r', 'c']))); bk.append(str(rng.choice(KINDS)))
-        flag = str(rng.choice(['N', 'T', 'H']))
-        D = sum(P @ (B.T if flag != 'N' else B) @ P.T for P, B in zip(Ps, Bs))
+        flag = rand_word(rng)
+        D = sum(P @ (B.T if transposed(flag) else B) @ P.T for P, B in zip(Ps, Bs))
         x = rand_x(rng, n)
         def f(Ps=Ps, Bs=Bs, pk=pk, bk=bk, flag=flag, x=x):
             S = operators.SubspaceOperator([mk(a, P) for a, P in zip(pk, Ps)], [mk(a, B) for a, B in zip(bk, Bs)])
-            return (S.T if flag == 'T' else S.H if flag == 'H' else S).dot(x)
+            return apply_word(S, flag).dot(x)
         add('subsp %s %s %s %s' % (flag, fmt_ops(pk, Ps), fmt_ops(bk, Bs), fmt_tensor(x)), f,
             {'op': 'subspace', 'flag': flag, 'nontrivial': k >= 2}, dense=D, x=x)
 
@@ -493,45 +517,100 @@ def solver_streams(ctx, operators, solvers, rng):
     eps = 2.0 ** -53
     req, impl, tol, meta = [], [], [], []
     nres_bad = 0
-    # make_solver / make_kronecker_solver
+    # make_solver / make_kronecker_solver: C-ordered, F-ordered and strided / transposed-view inputs, the SAME array object
+    # used for several solver constructions; every solver's residual is checked and the inputs must stay bitwise unchanged
+    def layout(B, how):
+        if how == 'C':
+            return np.ascontiguousarray(B)
+        if how == 'F':
+            return np.asfortranarray(B)
+        if how == 'Tview':                      # transposed view of a C-ordered array (F-contiguous, does not own its data)
+            return np.ascontiguousarray(B.T).T
+        big = np.zeros((2 * B.shape[0], 2 * B.shape[1]))     # strided view
+        big[::2, ::2] = B
+        return big[::2, ::2]
+
+    def check_solver(op, Kd, x, what, replay, cond):
+        nonlocal nres_bad
+        try:
+            y = np.asarray(op.dot(x))
+        except Exception as ex:
+            ctx.violation('ksolve-raise', '%s.dot(x) raised %s' % (what, type(ex).__name__), dict(replay, error=str(ex)[:300]), True)
+            return None
+        N = Kd.shape[0]
+        bound = 64.0 * N * eps * cond * max(1.0, float(np.abs(x).max())) * float(np.abs(Kd).sum(1).max())
+        res = np.abs(Kd @ y - x).max() if y.shape == x.shape else np.inf
+        if not res <= bound:
+            nres_bad += 1
+            ctx.violation('ksolve-residual', '%s: residual |B y - x| = %g exceeds the conditioning bound %g' % (what, res, bound),
+                          dict(replay, y=np.asarray(y).tolist()), True)
+        return y
+
     for _ in range(250 if quick else 2500):
         n = int(rng.choice([1, 1, 2, 2, 3]))
-        Bs, ks = [], []
+        Bs, ks, lay = [], [], []
         cond = 1.0
+        share = n >= 2 and rng.integers(0, 3) == 0       # make_kronecker_solver(B, B, ...): one array object for all factors
         for _k in range(n):
+            if share and Bs:
+                Bs.append(Bs[0]); ks.append(ks[0]); lay.append(lay[0]); cond *= c0
+                continue
             d = int(rng.integers(1, 4))
             while True:
                 B = rint(rng, (d, d)) + 4 * np.eye(d) if rng.integers(0, 2) else spd_int(rng, d)
                 nn = exact_inv_norms(B)
                 if nn is not None:
                     break
-            cond *= nn[0] * nn[1]
-            Bs.append(B); ks.append(str(rng.choice(['d', 'r', 'c'])))
+            c0 = nn[0] * nn[1]
+            cond *= c0
+            Bs.append(B); ks.append(str(rng.choice(['d', 'd', 'r', 'c']))); lay.append(str(rng.choice(['C', 'F', 'Tview', 'strided'])))
         N = int(np.prod([B.shape[0] for B in Bs]))
         x = rand_x(rng, N)
-        mats = [mk(k, B) for k, B in zip(ks, Bs)]
-        ctx.case(('ksolve', tuple(ks), tuple(B.tobytes() for B in Bs), x.tobytes()), nontrivial=n >= 2)
-        ctx.count('stream=ksolve'); ctx.count('ksolve factors=%d' % n)
-        try:
-            if n == 1 and rng.integers(0, 2):
-                sym = bool(np.array_equal(Bs[0], Bs[0].T) and np.all(np.linalg.eigvalsh(Bs[0]) > 0))
-                y = np.asarray(operators.make_solver(mats[0], spd=sym).dot(x))
+        mats = []
+        for k, B, l in zip(ks, Bs, lay):
+            if share and mats:
+                mats.append(mats[0])
             else:
-                y = np.asarray(operators.make_kronecker_solver(*mats).dot(x))
-        except Exception as ex:
-            ctx.violation('ksolve-raise', 'make_kronecker_solver(...).dot(x) raised %s' % type(ex).__name__,
-                          {'Bs': [B.tolist() for B in Bs], 'kinds': ks, 'x': x.tolist(), 'error': str(ex)[:300]}, True)
-            continue
+                mats.append(layout(B, l) if k == 'd' else mk(k, B))
+        snap = [(m.toarray() if sp.issparse(m) else np.array(m, copy=True)) for m in mats]
+        replay = {'Bs': [B.tolist() for B in Bs], 'kinds': ks, 'layouts': lay, 'same_object': bool(share), 'x': x.tolist()}
+        ctx.case(('ksolve', tuple(ks), tuple(lay), bool(share), tuple(B.tobytes() for B in Bs), x.tobytes()), nontrivial=n >= 2)
+        ctx.count('stream=ksolve'); ctx.count('ksolve factors=%d' % n)
+        for k, l in zip(ks, lay):
+            ctx.count('solver input=' + (l if k == 'd' else 'sparse-' + k))
+        if share:
+            ctx.count('ksolve shared array object')
         K = reduce(np.kron, Bs)
-        # derived bound: forward error of a backward-stable solve per factor, <= c * N * eps * cond * |x|
+        y = None
+        try:
+            if n == 1:
+                sym = bool(np.array_equal(Bs[0], Bs[0].T) and np.all(np.linalg.eigvalsh(Bs[0]) > 0)) and bool(rng.integers(0, 2))
+                # two solvers built from the same array object; both must solve the original system
+                s1 = operators.make_solver(mats[0], spd=sym)
+                s2 = operators.make_solver(mats[0], spd=sym)
+                y = check_solver(s1, K, x, 'make_solver(B) [first of two on the same array]', replay, cond)
+                check_solver(s2, K, x, 'make_solver(B) [second of two on the same array]', replay, cond)
+            else:
+                kop = operators.make_kronecker_solver(*mats)
+                y = check_solver(kop, K, x, 'make_kronecker_solver', replay, cond)
+                if rng.integers(0, 2):
+                    kop2 = operators.make_kronecker_solver(*mats)      # rebuilt from the same arrays
+                    check_solver(kop2, K, x, 'make_kronecker_solver [rebuilt from the same arrays]', replay, cond)
+        except Exception as ex:
+            ctx.violation('ksolve-raise', 'solver construction raised %s' % type(ex).__name__, dict(replay, error=str(ex)[:300]), True)
+            continue
+        # monitor: the caller's matrices are bitwise unchanged
+        for i, (m, s0) in enumerate(zip(mats, snap)):
+            now = m.toarray() if sp.issparse(m) else np.asarray(m)
+            if now.shape != s0.shape or not np.array_equal(now, s0):
+                ctx.violation('solver-input-mutated', 'make_solver / make_kronecker_solver modified its input matrix (factor %d, %s, layout %s)' % (
+                    i, 'ndarray' if ks[i] == 'd' else 'sparse', lay[i]), dict(replay, after=now.tolist()), True)
+                break
+        if y is None:
+            continue
         t = 64.0 * N * eps * cond * max(1.0, float(np.abs(x).max())) * float(np.abs(np.linalg.inv(K)).sum(1).max())
-        res = np.abs(K @ y - x).max() if y.shape == x.shape else np.inf
-        if not res <= 64.0 * N * eps * cond * max(1.0, float(np.abs(x).max())) * float(np.abs(K).sum(1).max()):
-            nres_bad += 1
-            ctx.violation('ksolve-residual', 'make_kronecker_solver: residual |(kron B) y - x| = %g exceeds the conditioning bound' % res,
-                          {'Bs': [B.tolist() for B in Bs], 'kinds': ks, 'x': x.tolist(), 'y': y.tolist()}, True)
         req.append('ksolve %s %s' % (fmt_ops(['d'] * n, Bs), fmt_tensor(x)))
-        impl.append(y); tol.append(t); meta.append({'op': 'ksolve', 'kinds': ks})
+        impl.append(y); tol.append(t); meta.append({'op': 'ksolve', 'kinds': ks, 'layouts': lay})
     # fastdiag_solver
     from pyiga import bspline, assemble
     import scipy.linalg
@@ -548,8 +627,15 @@ def solver_streams(ctx, operators, solvers, rng):
                     Kd, Md = sp.csr_matrix(Kd), sp.csr_matrix(Md)
             else:
                 Md = spd_int(rng, n); G = rint(rng, (n, n)); Kd = G + G.T + 8 * np.eye(n)
+            if not sp.issparse(Kd):
+                how = str(rng.choice(['C', 'F', 'Tview', 'strided']))
+                Kd, Md = layout(Kd, how), layout(Md, how)
+                ctx.count('fastdiag input=' + how)
             KM.append((Kd, Md))
-        dn = [np.asarray(K.toarray() if sp.issparse(K) else K) for K, _ in KM], [np.asarray(M.toarray() if sp.issparse(M) else M) for _, M in KM]
+        if dim >= 2 and rng.integers(0, 3) == 0:
+            KM = [KM[0]] * dim                       # the same (K, M) array objects in every direction
+            ctx.count('fastdiag shared array objects')
+        dn = [np.array(K.toarray() if sp.issparse(K) else K, copy=True) for K, _ in KM], [np.array(M.toarray() if sp.issparse(M) else M, copy=True) for _, M in KM]
         terms = []
         for d in range(dim):
             terms.append(reduce(np.kron, [dn[0][j] if j == d else dn[1][j] for j in range(dim)]))
@@ -567,6 +653,12 @@ def solver_streams(ctx, operators, solvers, rng):
                           'fastdiag_solver(KM)%s raised %s' % (' with scipy.sparse (K, M) pairs' if anysp else '.dot(x)', type(ex).__name__),
                           {'KM': [(a.tolist(), b.tolist()) for a, b in zip(*dn)], 'x': x.tolist(), 'error': str(ex)[:300]}, True)
             continue
+        for (Kd, Md), k0, m0 in zip(KM, *dn):
+            kn = Kd.toarray() if sp.issparse(Kd) else np.asarray(Kd); mn = Md.toarray() if sp.issparse(Md) else np.asarray(Md)
+            if not (np.array_equal(kn, k0) and np.array_equal(mn, m0)):
+                ctx.violation('solver-input-mutated', 'fastdiag_solver modified its input matrices',
+                              {'KM': [(a.tolist(), b.tolist()) for a, b in zip(*dn)], 'after': [kn.tolist(), mn.tolist()]}, True)
+                break
         condA = float(np.linalg.cond(A))
         res = np.abs(A @ y - x).max() if y.shape == x.shape else np.inf
         bound = 256.0 * N * eps * condA * float(np.abs(A).sum(1).max()) * max(float(np.abs(y).max()), 1e-300)
